@@ -1110,7 +1110,11 @@ func history(t *rapid.T, ad *adapter) {
 			return
 		}
 		for i := range pool {
-			if got, want := ad.enc(pool[i]), ad.want(exps[i]); got != want {
+			var got string
+			if p, _ := vlib.Catch(func() { got = ad.enc(pool[i]) }); p != nil {
+				got = fmt.Sprintf("panic while encoding: %v", p) // e.g. crypto/elliptic refusing a corrupted point
+			}
+			if want := ad.want(exps[i]); got != want {
 				failed = true
 				key := fmt.Sprintf("C13/%s.history/wrong-after-%s", ad.name, last)
 				if len(trace) > 12 {
@@ -1202,6 +1206,21 @@ func history(t *rapid.T, ad *adapter) {
 			if got != want {
 				failed = true
 				vlib.Report(t, fmt.Sprintf("C13/%s.%s/wrong-in-history", ad.name, ob.name), fmt.Sprintf("got %s want %s; history: %s", got, want, strings.Join(trace, "; ")))
+			}
+		}
+	}
+	for name, fn := range actions {
+		name, fn := name, fn
+		actions[name] = func(t *rapid.T) {
+			if p, st := vlib.Catch(func() { fn(t) }); p != nil {
+				if s, ok := p.(string); ok && strings.HasPrefix(s, "SELFTEST-FAIL") {
+					panic(p)
+				}
+				if fmt.Sprintf("%T", p) != "string" && fmt.Sprintf("%T", p) != "*errors.errorString" && fmt.Sprintf("%T", p) != "runtime.boundsError" && !strings.Contains(fmt.Sprintf("%T", p), "runtime.") {
+					panic(p) // rapid's own control-flow panics (invalid data, test failure) pass through
+				}
+				failed = true
+				vlib.Report(t, fmt.Sprintf("C13/%s.history/panic-in-%s", ad.name, strings.SplitN(name, ":", 2)[0]), fmt.Sprintf("%v after %s; history: %s\n%s", p, last, strings.Join(trace, "; "), st))
 			}
 		}
 	}
